@@ -111,6 +111,7 @@ def cases(tier):
         cs.append(f"structure/{copy}")
         cs.append(f"alloc/{copy}")
     cs.append("ctor/ddp")
+    cs += [f"commdtype/{c}" for c in ("ddp", "hsdp", "hybrid")]  # "at least as large as the block IN THE COMMUNICATION DTYPE": which dtype that is
     return cs
 
 
@@ -610,6 +611,9 @@ def _ctor_case(case):
 
 
 def run_case(case, tier, seed):
+    if case.startswith("commdtype/"):
+        from checks import dist as _D
+        return _D.run_comm_dtype(case)
     if case.startswith("ctor/"):
         return _ctor_case(case)
     if case.startswith("alloc/"):
@@ -816,6 +820,10 @@ def replay(r):
 def replay_file(doc):
     rp = doc.get("replay_input") or {}
     m = (doc.get("verifier_output") or {}).get("model") or {}
+    if rp.get("kind") == "commdtype":
+        from checks import dist as _D
+        bad = _D.native_comm_dtype(rp["copy"])
+        return bool(bad), bad or "communication dtype mapping holds on the real constructor"
     if rp.get("kind") == "native_assign":
         bad = native_assign_check(rp["copy"], tuple(rp["sizes"]), rp["G"])
         return bool(bad), f"sizes {rp['sizes']} G={rp['G']}: {bad}"
